@@ -6,6 +6,7 @@ type job struct {
 	test   string
 	rapid  bool   // driven by rapid: -rapid.checks / -rapid.seed are passed
 	fuzz   bool   // native go fuzzing for count seconds (thorough only)
+	race   bool   // run the test under the Go race detector (a report is a violation)
 	tier   string // "" = both tiers
 	checks [2]int // rapid cases per shard (quick, thorough)
 	shards [2]int
@@ -42,8 +43,9 @@ var specs = map[string]spec{
 		jobs: []job{
 			{name: "determinism", test: "TestC08", rapid: true, checks: [2]int{300, 8000}, shards: [2]int{8, 8}, secs: [2]int{900, 7200}, cores: 2},
 			{name: "queueiterate", test: "TestC08QueueIterate", shards: [2]int{2, 4}, count: [2]int{30000, 1000000}, secs: [2]int{600, 7200}, cores: 4},
+			{name: "queuerace", test: "TestC08QueueIterate", race: true, shards: [2]int{1, 2}, count: [2]int{3000, 60000}, secs: [2]int{600, 3600}, cores: 4},
 		},
-		rule:        "Programs of the profiles PRESSURELOAD, MEM, SHADOWSLOW, MEMSAFE, REG (results may be wrong for known reasons: determinism is independent of correctness); each case is judged on 6 of the 33 configurations with one drawn relation against the first run R0 of a fresh machine and a freshly parsed program: repeat x5 in-process; run after 1-3 unrelated machines; 6 machines concurrently in goroutines plus two noise machines of other variants; re-use of one parsed Application for a second and third run on the same configuration and after a run on another configuration; re-use after a run of the same parsed program from another state; a chain (one parsed program first serves a forwarding variant at parallelism 3-4 from another state and from the case's state, then every forwarding variant at parallelism 1 and 2, each compared with its run on a fresh parse); a child process (the test binary re-executed on the case); queueiterate = the goroutine interleavings of the queue iterator the control units use, sampled by 30 000 (10^6) repetitions on 4 OS threads under garbage-collection preemption. Compared: outcome class and, for runs that return, cycle count, 32 registers and all memory. Non-trivial = the run has a memory access or a register dependence at distance <= 4; distinct by (text, registers, memory image, relation, configurations).",
+		rule:        "Programs of the profiles PRESSURELOAD, MEM, SHADOWSLOW, MEMSAFE, REG (results may be wrong for known reasons: determinism is independent of correctness); each case is judged on 6 of the 33 configurations with one drawn relation against the first run R0 of a fresh machine and a freshly parsed program: repeat x5 in-process; run after 1-3 unrelated machines; 6 machines concurrently in goroutines plus two noise machines of other variants; re-use of one parsed Application for a second and third run on the same configuration and after a run on another configuration; re-use after a run of the same parsed program from another state; a chain (one parsed program first serves a forwarding variant at parallelism 3-4 from another state and from the case's state, then every forwarding variant at parallelism 1 and 2, each compared with its run on a fresh parse); a child process (the test binary re-executed on the case); queueiterate = the goroutine interleavings of the queue iterator the control units use, sampled by 30 000 (10^6) repetitions on 4 OS threads under garbage-collection preemption, and (job queuerace) the same loop under the Go race detector, which reports an unsynchronised access between the iterator's producer goroutine and the consumer even when the harmful interleaving did not occur. Compared: outcome class and, for runs that return, cycle count, 32 registers and all memory. Non-trivial = the run has a memory access or a register dependence at distance <= 4; distinct by (text, registers, memory image, relation, configurations).",
 		assumptions: []string{"the text of a Go panic is not part of the claim (a run that does not return has no registers, memory or cycle count)", "a budget overrun is an outcome class like any other: 'hangs once, finishes once' is a violation, 'always hangs' is C07's"},
 	},
 	"C12": {
@@ -69,8 +71,9 @@ var specs = map[string]spec{
 			{name: "random", test: "TestC14Buses", rapid: true, checks: [2]int{8000, 200000}, shards: [2]int{8, 8}, secs: [2]int{600, 7200}, cores: 2},
 			{name: "exhaustive", test: "TestC14Exhaustive", shards: [2]int{5, 5}, count: [2]int{7, 9}, secs: [2]int{600, 7200}},
 			{name: "queueiterate", test: "TestC14QueueIterate", shards: [2]int{2, 4}, count: [2]int{30000, 1000000}, secs: [2]int{600, 7200}, cores: 4},
+			{name: "queuerace", test: "TestC14QueueIterate", race: true, shards: [2]int{1, 2}, count: [2]int{3000, 60000}, secs: [2]int{600, 3600}, cores: 4},
 		},
-		rule:        "Histories of add (only while CanAdd), tick (cycle+1, Connect), get, pick, revert (of the item just taken), delete-last and clean on comp.BufferedBus(in,out) for capacities 1..4 against a buffer/queue model with an explicit cycle counter, on comp.SimpleBus against a two-slot latch, and push/iterate/remove histories on comp.Queue; after every step the observers (CanGet, CanAdd, IsEmpty, RemainingToAdd, PendingRead, Exists) are compared, every delivery is checked for exactly-once, insertion order (first match for Pick) and cycle > cycle of its Add, and at the end the bus is drained: every item added and not withdrawn came out once. exhaustive = all sequences of length <= k (7 quick, 9 thorough) of the 9 actions for capacities 1..2 and the simple bus. queueiterate = 30 000 (thorough 10^6) repetitions on 4 OS threads of 'iterate a queue of 2..10 elements while removing the elements handed out', the way the control units use comp.Queue: goroutine interleavings of the iterator's producer are sampled by repetition; every element must be visited in order. Non-trivial = back-pressure occurred (an add was refused) and >= 3 items were delivered; distinct by history.",
+		rule:        "Histories of add (only while CanAdd), tick (cycle+1, Connect), get, pick, revert (of the item just taken), delete-last and clean on comp.BufferedBus(in,out) for capacities 1..4 against a buffer/queue model with an explicit cycle counter, on comp.SimpleBus against a two-slot latch, and push/iterate/remove histories on comp.Queue; after every step the observers (CanGet, CanAdd, IsEmpty, RemainingToAdd, PendingRead, Exists) are compared, every delivery is checked for exactly-once, insertion order (first match for Pick) and cycle > cycle of its Add, and at the end the bus is drained: every item added and not withdrawn came out once. exhaustive = all sequences of length <= k (7 quick, 9 thorough) of the 9 actions for capacities 1..2 and the simple bus. queueiterate = 30 000 (thorough 10^6) repetitions on 4 OS threads of 'iterate a queue of 2..10 elements while removing the elements handed out', the way the control units use comp.Queue: goroutine interleavings of the iterator's producer are sampled by repetition; every element must be visited in order; queuerace = the same loop under the Go race detector (a reported data race is a violation). Non-trivial = back-pressure occurred (an add was refused) and >= 3 items were delivered; distinct by history.",
 		assumptions: []string{"the pipeline's usage: one Connect per cycle, producers add only while CanAdd is true", "Broadcast is not a pipeline bus in the statement's sense and is not modelled"},
 	},
 	"C15": {
